@@ -4,7 +4,7 @@ from hypothesis import strategies as st
 from . import cvz
 from .gen import fl, rnd, fmt
 
-BIAS_KINDS = ["harmonic", "harmonic_moving", "harmonic_kmoving", "harmonic_staged", "walls", "linear", "abf", "meta", "meta_nogrid",
+BIAS_KINDS = ["harmonic", "harmonic_moving", "harmonic_kmoving", "harmonic_staged", "harmonic_sched", "walls", "linear", "abf", "meta", "meta_nogrid",
               "meta_wt", "opes", "abmd", "alb", "histogram"]
 
 
@@ -50,7 +50,9 @@ def bias(draw, vs, idx, kinds=None, total_forces=True):
          "W": rnd(draw(fl(0.05, 1.0)), 3)}
     if k in ("harmonic", "meta", "histogram", "abf", "meta_nogrid") and nv > 1 and draw(st.booleans()):
         b["vars"] = list(range(nv))
-    if k in ("opes", "abmd", "alb", "linear", "harmonic_staged", "harmonic_kmoving") and v["periodic"]:
+    if k == "harmonic_moving":
+        b["stages"] = draw(st.sampled_from([0, 0, 2, 3]))      # staged centres
+    if k in ("opes", "abmd", "alb", "linear", "harmonic_staged", "harmonic_kmoving", "harmonic_sched") and v["periodic"]:
         others = [i for i, x in enumerate(vs) if not x["periodic"]]
         if not others:
             b["kind"] = "harmonic"
@@ -80,9 +82,15 @@ def render_bias(b, vs):
     if k.startswith("harmonic"):
         L = ["harmonic {", "  name " + b["name"], "  colvars " + names, "  centers " + centers(b, vs), "  forceConstant " + fmt(b["k"])]
         if k == "harmonic_moving":
-            L += ["  targetCenters " + centers(b, vs, "c1"), "  targetNumSteps %d" % b["N"], "  outputAccumulatedWork on", "  outputCenters on"]
+            L += ["  targetCenters " + centers(b, vs, "c1"), "  targetNumSteps %d" % b["N"]]
+            if b.get("stages"):
+                L += ["  targetNumStages %d" % b["stages"], "  outputCenters on"]
+            else:
+                L += ["  outputAccumulatedWork on", "  outputCenters on"]
         elif k == "harmonic_kmoving":
             L += ["  targetForceConstant " + fmt(b["k"] * 2.5), "  targetNumSteps %d" % b["N"], "  outputAccumulatedWork on"]
+        elif k == "harmonic_sched":
+            L += ["  targetForceConstant " + fmt(b["k"] * 2.5), "  targetNumSteps %d" % b["N"], "  lambdaSchedule 0.0 0.25 0.6 1.0"]
         elif k == "harmonic_staged":
             L += ["  targetForceConstant " + fmt(b["k"] * 2.5), "  targetNumSteps %d" % b["N"], "  targetNumStages 3"]
     elif k == "walls":
